@@ -147,10 +147,11 @@ func (o hop) String() string {
 }
 
 type hcase struct {
-	Kind  string `json:"store"`
-	Ops   []hop  `json:"ops"`
-	At    int    `json:"fault_at"`
-	Fault string `json:"fault"`
+	Kind    string `json:"store"`
+	Preload int    `json:"preload"` // A-events published (and persisted) before the history starts
+	Ops     []hop  `json:"ops"`
+	At      int    `json:"fault_at"`
+	Fault   string `json:"fault"`
 }
 
 func (c hcase) String() string {
@@ -159,6 +160,9 @@ func (c hcase) String() string {
 		p = append(p, o.String())
 	}
 	s := fmt.Sprintf("store=%s [%s]", c.Kind, strings.Join(p, " "))
+	if c.Preload > 0 {
+		s = fmt.Sprintf("store=%s preload=%d [%s]", c.Kind, c.Preload, strings.Join(p, " "))
+	}
 	if c.At != 0 {
 		s += fmt.Sprintf(" fault=%s@op%d", c.Fault, c.At)
 	}
@@ -304,6 +308,14 @@ func runHistory(c hcase) []string {
 	w := &world{med: med, hd: hd}
 	w.fs = &fstore{st: hd.Store, str: hd.Stream, sub: hd.Sub, at: c.At, kind: c.Fault}
 	w.newBus()
+	at := w.fs.at
+	w.fs.at = 0
+	for i := 0; i < c.Preload; i++ {
+		w.n++
+		eventbus.Publish(w.bus, A{N: w.n})
+	}
+	w.fs.ops = 0
+	w.fs.at = at
 	for si, o := range c.Ops {
 		step := fmt.Sprintf("step %d (%s)", si+1, o)
 		switch o.K {
@@ -588,8 +600,88 @@ func (s *sinst) Check(res *vrt.Result) []vrt.Violation {
 	return vs
 }
 
+// linst: a live subscription is established first; then two publishers race. The
+// subscription's saved offset (every SaveOffset call is recorded) must never move
+// backwards, and after a restart nothing whose position was saved is delivered again.
+type saveRec struct {
+	*eventbus.MemoryStore
+	rec *h.Rec
+}
+
+func (s saveRec) SaveOffset(ctx context.Context, id string, o eventbus.Offset) error {
+	err := s.MemoryStore.SaveOffset(ctx, id, o)
+	// recorded right after the store took the value (no scheduling point in between):
+	// the order of these marks is the order in which the saves took effect
+	s.rec.Add("save", 0, 0, string(o))
+	return err
+}
+
+type linst struct {
+	rec    h.Rec
+	status string
+	seq    bool // the subscription's handler is Sequential (handling + saving are serialised)
+}
+
+func (s *linst) Body() {
+	ms := eventbus.NewMemoryStore()
+	sr := saveRec{ms, &s.rec}
+	bus := eventbus.New(eventbus.WithStore(ms), eventbus.WithSubscriptionStore(sr))
+	var opts []eventbus.SubscribeOption
+	if s.seq {
+		opts = append(opts, eventbus.Sequential())
+	}
+	eventbus.SubscribeWithReplay(bg, bus, "id1", func(e A) { s.rec.Add("d", e.N, 1, "") }, opts...)
+	vrt.Go(func() { eventbus.Publish(bus, A{N: 10}) })
+	vrt.Go(func() { eventbus.Publish(bus, A{N: 20}) })
+	vrt.Join()
+	bus2 := eventbus.New(eventbus.WithStore(ms), eventbus.WithSubscriptionStore(sr))
+	eventbus.SubscribeWithReplay(bg, bus2, "id1", func(e A) { s.rec.Add("d", e.N, 2, "") })
+}
+
+func (s *linst) Trace() string   { return s.rec.String() }
+func (s *linst) Outcome() string { return s.status + " " + s.rec.String() }
+func (s *linst) Check(res *vrt.Result) []vrt.Violation {
+	s.status = res.Status.String()
+	name := "live subscription with two concurrent publishers"
+	kind := "schedules (memory store)"
+	if s.seq {
+		name = "live Sequential subscription with two concurrent publishers"
+		kind = "schedules (memory store, Sequential subscription)"
+	}
+	vs := vrt.StatusViolations(name, res)
+	if res.Status != vrt.StatusOK {
+		return vs
+	}
+	last := ""
+	back := false
+	cnt := map[int]int{}
+	for _, e := range s.rec.Events() {
+		switch e.K {
+		case "save":
+			if e.S < last {
+				back = true
+			}
+			last = e.S
+		case "d":
+			cnt[e.A]++
+		}
+	}
+	if back {
+		vs = append(vs, vrt.Violation{Kind: "offset-backwards", Sig: kind + ": two concurrent publishers make a live subscription's saved offset move backwards", Detail: name + "\n" + s.rec.String()})
+	}
+	for _, n := range cnt {
+		if n > 1 {
+			vs = append(vs, vrt.Violation{Kind: "duplicate", Sig: kind + ": two concurrent publishers: an event is delivered again after a restart with no crash", Detail: name + "\n" + s.rec.String()})
+			break
+		}
+	}
+	return vs
+}
+
 func schedScenarios(thorough bool) []vrt.Scenario {
 	l := []vrt.Scenario{
+		{Name: "live-sub-2-publishers", New: func() vrt.Instance { return &linst{} }},
+		{Name: "live-sequential-sub-2-publishers", New: func() vrt.Instance { return &linst{seq: true} }},
 		{Name: "swr-vs-1-publish", New: func() vrt.Instance { return &sinst{pubs: 1} }},
 		{Name: "swr-vs-2-publishes", New: func() vrt.Instance { return &sinst{pubs: 2} }},
 	}
@@ -630,6 +722,24 @@ func run(c *h.Check) {
 			}
 			for _, m := range runHistory(hc) {
 				c.Violate("history", sigOf(hc, m), hc.String()+"\n"+m, hc)
+			}
+		}
+		// logs that cross the 9 -> 10 position boundary (offsets change length)
+		for _, pre := range []int{8, 9} {
+			for _, ops := range histories(3) {
+				idx++
+				if !c.Mine(idx) {
+					continue
+				}
+				if c.TimeUp() {
+					return
+				}
+				hc := hcase{Kind: k, Preload: pre, Ops: ops}
+				c.Count("evaluations", 1)
+				c.Count("nontrivial", 1)
+				for _, m := range runHistory(hc) {
+					c.Violate("history", sigOf(hc, m), hc.String()+"\n"+m, hc)
+				}
 			}
 		}
 		faultHists := histories(fdepth)
